@@ -856,8 +856,13 @@ def _run_path(fn, params, tier, seed, name, override, path_no, extra_pre=()):
             observed = rep.get("crash")
         else:
             same = [f for f in rep["failures"] if f["index"] == c.index or f["what"] == c.what]
-            reproduced = bool(same) or (rep.get("crash") is not None)
-            observed = same or rep.get("crash")
+            # an exception of the code under test during replay confirms a violation; an exception raised by the harness
+            # itself (no deepali frame) does not
+            rcrash = rep.get("crash")
+            reproduced = bool(same) or (rcrash is not None and rcrash.get("site") is not None)
+            observed = same or rcrash
+            if not reproduced and rcrash is not None:
+                c.detail += f" [replay raised a harness exception: {rcrash.get('exc')}: {str(rcrash.get('msg'))[:120]}]"
         v = dict(name=name, params=params, what=c.what, kind=c.kind, detail=c.detail, reproduced=bool(reproduced), observed=observed, path=path_no,
                  model={k: (float(v_) if not isinstance(v_, bool) else v_) for k, v_ in c.model.items() if v_ is not None}, signature=sig)
         if reproduced:
